@@ -43,6 +43,15 @@ def shaped(g):
         sp = g.pair(kinds=["none", "misconv", "conv", "same"], names=["ident"], n=(4, 6), embeds=0.3, func_over=0.0, mapper_idle=0.0)
         out.append(("companion-first", mapgen.add_companion(g.rng, sp, disabled=dis)))
     out.append(("universe-types", g.pair(kinds=["same", "oneway", "none"], names=["ident"], n=(5, 6))))
+    # the four slice-of-struct shapes ([]T / []*T on either side), both helper types; observed with a nil element at the first,
+    # middle and last position (seeded change C05-6): the result keeps its length, the other elements their index
+    for a0, b0 in mapgen.SUBS:
+        for ap in (True, False):
+            for bp in (True, False):
+                a = mapgen.SL(mapgen.P(a0) if ap else a0)
+                b = mapgen.SL(mapgen.P(b0) if bp else b0)
+                out.append(("each-%s-%s" % ("ptr" if ap else "val", "ptr" if bp else "val"),
+                            mapgen.mk_spec([mapgen.F("List", a), mapgen.F("Name", mapgen.STR)], [mapgen.F("List", b), mapgen.F("Name", mapgen.STR)])))
     # cyclic embedding: the pairs are those of the finite unfolding
     for side in ("src", "dest"):
         for v in ("self", "mutual", "inner"):
